@@ -532,7 +532,54 @@ func c32Scenario(c *vctx, rng *vrng, num int) error {
 	}
 	steps := 2 + rng.intn(2)
 	twin := "" // the previous step left a "twin" in the source: same metadata and persistent id as a copied snapshot, other tree
+	// one more step on an "interrupted" destination: the state a copy leaves when it dies after the tree
+	// pack(s) of the batch were stored but before its data packs and snapshots, and the leftover pack then
+	// became known to the index (repair index): tree blobs present and indexed, their data absent
+	interrupted := num < 3 || rng.chance(50)
+	if interrupted {
+		steps++
+	}
+	var lastMods []vop
 	for step := 0; step < steps; step++ {
+		crafted := false
+		if interrupted && step == steps-1 && len(lastMods) > 0 {
+			dr, err := dst.openRepo(ctx)
+			if err != nil {
+				return err
+			}
+			removed := 0
+			for _, o := range lastMods {
+				id, perr := restic.ParseID(o.Name)
+				if perr != nil || o.Op != "Save" {
+					continue
+				}
+				switch o.Type {
+				case backend.PackFile:
+					blobs, err := dr.VerifC32ListPack(ctx, id, int64(len(o.Data)))
+					if err != nil {
+						return err
+					}
+					dataOnly := len(blobs) > 0
+					for _, b := range blobs {
+						if b.Type != restic.DataBlob {
+							dataOnly = false
+						}
+					}
+					if dataOnly && os.Remove(filepath.Join(dst.repo, "data", o.Name[:2], o.Name)) == nil {
+						removed++
+					}
+				case backend.SnapshotFile:
+					_ = os.Remove(filepath.Join(dst.repo, "snapshots", o.Name))
+				}
+			}
+			if removed > 0 {
+				if _, eb, err := dst.cli("repair", "index"); err != nil {
+					return fmt.Errorf("repair index: %w (%s)", err, eb)
+				}
+				crafted = true
+				c.Hist("interrupted-state")
+			}
+		}
 		srcRepo, err := src.openRepo(ctx)
 		if err != nil {
 			return err
@@ -547,7 +594,7 @@ func c32Scenario(c *vctx, rng *vrng, num int) error {
 		// subset of snapshots by id, or all
 		var args []string
 		chosen := srcSnaps
-		if twin == "" && rng.chance(35) && len(srcSnaps) > 1 {
+		if twin == "" && !crafted && rng.chance(35) && len(srcSnaps) > 1 {
 			chosen = nil
 			for _, s := range srcSnaps {
 				if rng.chance(55) {
@@ -580,6 +627,9 @@ func c32Scenario(c *vctx, rng *vrng, num int) error {
 			var mods []vop
 			for _, o := range dst.rec.Mods() {
 				mods = append(mods, o)
+			}
+			if len(mods) > 0 {
+				lastMods = mods
 			}
 			return c32Trace(ctx, dst, mods, names)
 		}
@@ -652,6 +702,9 @@ func c32Scenario(c *vctx, rng *vrng, num int) error {
 		kind := fmt.Sprintf("%s-step%d", dstMode, min(step, 2))
 		if len(args) > 0 {
 			kind += "-subset"
+		}
+		if crafted {
+			kind += "-interrupted"
 		}
 		if twin != "" {
 			kind += "-twin-" + twin
